@@ -190,6 +190,8 @@ def liveness(body):
                 op_uses(rv["a"], acc)
             elif k == "discr":
                 acc.add(rv["place"]["local"])
+            elif k == "repeat":
+                op_uses(rv["op"], acc)
             elif k == "aggregate":
                 for o in rv["ops"]:
                     op_uses(o, acc)
@@ -198,6 +200,9 @@ def liveness(body):
             p = s["place"]
             if p["proj"]:
                 use_(p["local"])
+                for e in p["proj"]:
+                    if e["k"] == "index":
+                        use_(e["local"])  # a[i] = ..: the index is read
             else:
                 d.add(p["local"])
         t = b["term"]["t"]
